@@ -23,6 +23,14 @@
 #include "public/module/mod.h"
 #include <sys/eventfd.h>
 #include <sys/timerfd.h>
+#include <sys/signalfd.h>
+#include <sys/inotify.h>
+#include <sys/syscall.h>
+#include <sys/wait.h>
+#include <sys/stat.h>
+#include <semaphore.h>
+#include <spawn.h>
+#include <time.h>
 #include "ctx.h"      /* white-box reads only: ctx->stats.running_modules, ev_src_t.mod/type (attribution of poll events) */
 
 #define NM 4
@@ -54,6 +62,7 @@ static VP_TLS int in_loop;
 static VP_TLS int prog_loopable;
 static VP_TLS const char *loop_expect_ready;
 static void fail(const char *sig, const char *fmt, ...);
+static void arm_joins(int a, int b, const char *act);
 static long loop_call(gw_edge *start);
 static int spec_stop_pending(int st) {       /* looping and (quit requested or nothing running): the next dispatch is the stop */
     const char *p = gw_states[st].proj;
@@ -64,7 +73,7 @@ static int spec_stop_pending(int st) {       /* looping and (quit requested or n
 }
 static int next_is_dispatch(void) { return cursor < PN && !strcmp(gw_edges[P[cursor]].act, "Dispatch"); }
 static void consume_stop_edge(void) {        /* the library is about to run (or has run) loop_stop() */
-    if (in_loop == 1 && next_is_dispatch() && spec_stop_pending(cur_state)) { cur_state = gw_edges[P[cursor]].dst; cursor++; in_loop = 2; }
+    if (in_loop == 1 && next_is_dispatch() && spec_stop_pending(cur_state)) { arm_joins(gw_edges[P[cursor]].src, gw_edges[P[cursor]].dst, "Dispatch"); cur_state = gw_edges[P[cursor]].dst; cursor++; in_loop = 2; }
 }
 static int program_loopable(const int *prog, int n) {
     /* not loop-replayable: a top-level step other than the stopping dispatch is taken while the stop is pending */
@@ -78,6 +87,9 @@ static void parse_batch(const char *arg);
 static int loop_poll(int epfd, struct epoll_event *events, int maxevents);
 
 
+static int task_mode;
+static sem_t task_notified;                      /* posted after a task thread wrote its notification */
+static pid_t paths_owner;
 /* ---- descriptor ledger (library-opened descriptors) ---- */
 #define MAXFD 1024
 static VP_TLS unsigned char fd_lib[MAXFD];     /* 1 = opened by the library and still open */
@@ -102,10 +114,12 @@ int __wrap_epoll_create1(int fl) {
     if (r >= 0 && in_program && r < MAXFD) fd_lib[r] = 1;
     return r;
 }
+static VP_TLS struct { int w; char path[64]; unsigned mask; } vino[MAXFD];
 static VP_TLS int double_close;
 int __wrap_close(int fd) {
     if (in_program && fd >= 0 && fd < MAXFD) {
         if (fd_lib[fd]) { fd_lib[fd] = 0; pipe_peer[fd] = 0; }
+        if (vino[fd].w > 0) { __real_close(vino[fd].w); vino[fd].w = 0; }
         for (int k = 1; k <= 3; k++) if (ufd_r_[k] == fd) ufd_r_[k] = -2;      /* a user descriptor closed by the library (auto-close) */
     }
     int r = __real_close(fd);
@@ -119,14 +133,79 @@ ssize_t __wrap_write(int fd, const void *buf, size_t n) {
         ioctl(pipe_peer[fd], FIONREAD, &pending);
         if (pending / (int)sizeof(void *) >= cap) { errno = EAGAIN; return -1; }
     }
-    return __real_write(fd, buf, n);
+    ssize_t wr = __real_write(fd, buf, n);
+    if (!in_program && task_mode && n == 8) sem_post(&task_notified);    /* (in_program is per thread: this is a task thread's notification) */
+    return wr;
+}
+
+/* library-owned descriptors of signal / path / pid / task / threshold sources (ledger only) */
+int __real_eventfd(unsigned int v, int fl);
+int __wrap_eventfd(unsigned int v, int fl) { int r = __real_eventfd(v, fl); if (r >= 0 && in_program && r < MAXFD) fd_lib[r] = 1; return r; }
+int __real_signalfd(int fd, const sigset_t *m, int fl);
+int __wrap_signalfd(int fd, const sigset_t *m, int fl) { int r = __real_signalfd(fd, m, fl); if (r >= 0 && in_program && r < MAXFD) fd_lib[r] = 1; return r; }
+/* path watches are virtual (closing a real inotify instance takes the kernel ~10 ms): an instance is a pipe into which PathTouch
+   writes the event records the kernel would queue for the watches that exist at that moment; what the library asks to watch is recorded */
+int __real_inotify_init1(int fl);
+int __wrap_inotify_init1(int fl) {
+    if (!in_program) return __real_inotify_init1(fl);
+    int p[2];
+    if (__real_pipe(p) != 0) return -1;
+    if (p[0] >= MAXFD || p[1] >= MAXFD) { __real_close(p[0]); __real_close(p[1]); errno = EMFILE; return -1; }
+    fcntl(p[0], F_SETFL, O_NONBLOCK); fcntl(p[1], F_SETFL, O_NONBLOCK); fcntl(p[0], F_SETFD, FD_CLOEXEC); fcntl(p[1], F_SETFD, FD_CLOEXEC);
+    fd_lib[p[0]] = 1; vino[p[0]].w = p[1]; vino[p[0]].path[0] = 0; vino[p[0]].mask = 0;
+    return p[0];
+}
+int __real_inotify_add_watch(int fd, const char *path, unsigned mask);
+int __wrap_inotify_add_watch(int fd, const char *path, unsigned mask) {
+    if (!in_program || fd < 0 || fd >= MAXFD || vino[fd].w <= 0) return __real_inotify_add_watch(fd, path, mask);
+    snprintf(vino[fd].path, sizeof vino[fd].path, "%s", path ? path : "");
+    vino[fd].mask = mask;
+    return 1;
+}
+long __real_syscall(long n, long a, long b, long c, long d, long e, long f);
+long __wrap_syscall(long n, long a, long b, long c, long d, long e, long f) {
+    long r = __real_syscall(n, a, b, c, d, e, f);
+    if (n == SYS_pidfd_open && r >= 0 && in_program && r < MAXFD) fd_lib[r] = 1;
+    return r;
+}
+
+/* ---- tasks: the user's function blocks on a gate until the program says TaskFinish (or the library waits for it) ---- */
+#define NTK 4
+typedef struct { char ud[4]; int m, key; sem_t gate; volatile int entered, exited, released; } task_slot;
+static task_slot TK[NM][NTK];
+static volatile int task_release_on_join;        /* the spec expects the library to wait for the running tasks during this step */
+static volatile int task_joined;
+static int task_fn(void *ud) {
+    task_slot *t = ud;
+    vp_foreign_thread = 1;
+    __atomic_add_fetch(&t->entered, 1, __ATOMIC_SEQ_CST);
+    sem_wait(&t->gate);
+    __atomic_add_fetch(&t->exited, 1, __ATOMIC_SEQ_CST);
+    return 40 + t->key;
+}
+static int task_running(int m, int key) { return __atomic_load_n(&TK[m][key].entered, __ATOMIC_SEQ_CST) - __atomic_load_n(&TK[m][key].exited, __ATOMIC_SEQ_CST); }
+static int wait_notified(void) { struct timespec ts; clock_gettime(CLOCK_REALTIME, &ts); ts.tv_sec += 5; return sem_timedwait(&task_notified, &ts); }
+static int task_release_all(void) {            /* open the gate of every thread inside the user's function; returns how many */
+    int n = 0;
+    for (int m = 0; m < NM; m++) for (int k = 1; k < NTK; k++)
+        while (__atomic_load_n(&TK[m][k].entered, __ATOMIC_SEQ_CST) > TK[m][k].released) { TK[m][k].released++; sem_post(&TK[m][k].gate); n++; }
+    return n;
+}
+int __real_pthread_join(pthread_t th, void **ret);
+int __wrap_pthread_join(pthread_t th, void **ret) {
+    if (in_program && task_mode) {
+        /* the library waits for its task threads: the user's functions return now (if the spec expects this wait; else they stay
+           blocked and the program hangs: an unexpected wait is reported as core-hang) */
+        if (task_release_on_join) { task_joined += task_release_all(); }
+    }
+    return __real_pthread_join(th, ret);
 }
 
 /* ---- virtual time: timerfds are eventfds that the program fires (TmrFire / tick) ---- */
 int __real_timerfd_create(int clockid, int flags);
 int __wrap_timerfd_create(int clockid, int flags) {
     if (!in_program) return __real_timerfd_create(clockid, flags);
-    int fd = eventfd(0, EFD_NONBLOCK | EFD_CLOEXEC);
+    int fd = __real_eventfd(0, EFD_NONBLOCK | EFD_CLOEXEC);
     if (fd >= 0 && fd < MAXFD) fd_lib[fd] = 1;
     return fd;
 }
@@ -141,9 +220,51 @@ int __wrap_timerfd_settime(int fd, int flags, const struct itimerspec *nv, struc
 /* ---- user descriptors (fd sources): key -> pipe owned by the program ---- */
 #define NKEY 3
 static VP_TLS int ufd_w[NKEY + 1];
-static void ufd_open(int k) { int p[2]; if (__real_pipe(p) == 0) { ufd_r[k] = p[0]; ufd_w[k] = p[1]; fcntl(p[0], F_SETFL, O_NONBLOCK); fcntl(p[1], F_SETFL, O_NONBLOCK); } }
+static void ufd_open(int k) { int p[2]; if (__real_pipe(p) == 0) { ufd_r[k] = p[0]; ufd_w[k] = p[1]; fcntl(p[0], F_SETFL, O_NONBLOCK); fcntl(p[1], F_SETFL, O_NONBLOCK); fcntl(p[0], F_SETFD, FD_CLOEXEC); fcntl(p[1], F_SETFD, FD_CLOEXEC); } }
 static int ufd_is_open(int k) { return ufd_r[k] >= 0; }
 static const unsigned long long TMR_NS[NKEY + 1] = {0, 1000000ULL, 5000000000ULL, 5000000001ULL};
+
+/* ---- signals, watched paths, watched processes (owned by the program) ---- */
+static const int SIGS[NKEY + 1] = {0, SIGUSR1, SIGUSR2, SIGWINCH};
+static char PATHS[NKEY + 1][64];
+static VP_TLS pid_t kid[NKEY + 1], kid_parent[NKEY + 1]; static VP_TLS int kid_w[NKEY + 1];
+static void paths_init(void) {
+    paths_owner = getpid();
+    for (int k = 1; k <= NKEY; k++) { snprintf(PATHS[k], sizeof PATHS[k], "/var/tmp/vp-core-%d-k%d", (int)getpid(), k); mkdir(PATHS[k], 0700); }
+}
+static void paths_fini(void) { if (getpid() == paths_owner) for (int k = 1; k <= NKEY; k++) rmdir(PATHS[k]); }
+static void signals_drain(void) {
+    sigset_t ss; sigemptyset(&ss); for (int k = 1; k <= NKEY; k++) sigaddset(&ss, SIGS[k]);
+    struct timespec zero = {0, 0};
+    while (sigtimedwait(&ss, NULL, &zero) > 0);
+}
+static pid_t kid_of(int k) {                     /* a child process that lives until the program says PidExit */
+    if (kid[k] > 0 && kid_parent[k] == getpid()) return kid[k];     /* (a child of an earlier replay process is not ours) */
+    int p[2];
+    if (__real_pipe(p) != 0) return -1;
+    /* posix_spawn (vfork-like): forking the sanitized replay process itself costs tens of milliseconds */
+    pid_t c = -1;
+    posix_spawn_file_actions_t fa;
+    posix_spawn_file_actions_init(&fa);
+    posix_spawn_file_actions_adddup2(&fa, p[0], 0);
+    posix_spawn_file_actions_addclose(&fa, p[1]);
+    posix_spawn_file_actions_addopen(&fa, 1, "/dev/null", O_WRONLY, 0);
+    char *argv[] = {"cat", NULL}, *envp[] = {NULL};
+    if (posix_spawn(&c, "/bin/cat", &fa, NULL, argv, envp) != 0) c = -1;      /* cat lives until its input (our end of the pipe) is closed */
+    posix_spawn_file_actions_destroy(&fa);
+    __real_close(p[0]);
+    fcntl(p[1], F_SETFD, FD_CLOEXEC);
+    kid[k] = c; kid_w[k] = p[1]; kid_parent[k] = getpid();
+    return c;
+}
+static void kid_exit(int k) {
+    if (kid_of(k) <= 0 || kid_w[k] < 0) return;
+    __real_close(kid_w[k]); kid_w[k] = -1;
+    siginfo_t si; waitid(P_PID, (id_t)kid[k], &si, WEXITED | WNOWAIT);      /* exited, not reaped: its pid stays valid */
+}
+static void kids_reap(void) {            /* processes that exited in this program are reaped; the others serve the next program */
+    for (int k = 1; k <= NKEY; k++) if (kid[k] > 0 && kid_parent[k] == getpid() && kid_w[k] < 0) { int st; waitpid(kid[k], &st, 0); kid[k] = 0; }
+}
 
 /* ---- poll control ---- */
 static VP_TLS struct { int m; char kind[8]; int key; } batch[8];
@@ -160,6 +281,10 @@ static int src_matches(ev_src_t *src, int m, const char *kind, int key) {
     if (!strcmp(kind, "ps")) return src->type == M_SRC_TYPE_PS;
     if (!strcmp(kind, "fd")) return src->type == M_SRC_TYPE_FD && src->fd_src.fd == ufd_r[key];
     if (!strcmp(kind, "tmr")) return src->type == M_SRC_TYPE_TMR && !(src->flags & SRC_INTERNAL) && src->tmr_src.its.ns == TMR_NS[key];
+    if (!strcmp(kind, "sgn")) return src->type == M_SRC_TYPE_SGN && (int)src->sgn_src.sgs.signo == SIGS[key];
+    if (!strcmp(kind, "path")) return src->type == M_SRC_TYPE_PATH && !strcmp(src->path_src.pt.path, PATHS[key]);
+    if (!strcmp(kind, "pid")) return src->type == M_SRC_TYPE_PID && src->pid_src.pid.pid == kid[key];
+    if (!strcmp(kind, "task")) return src->type == M_SRC_TYPE_TASK && src->task_src.tid.tid == key;
     if (!strcmp(kind, "tb")) return src->type == M_SRC_TYPE_TMR && (src->flags & SRC_INTERNAL) && src->userptr == &src->mod->tb;
     if (!strcmp(kind, "bt")) return src->type == M_SRC_TYPE_TMR && (src->flags & SRC_INTERNAL) && src->userptr == &src->mod->batch;
     return 0;
@@ -182,6 +307,9 @@ int __wrap_epoll_wait(int epfd, struct epoll_event *events, int maxevents, int t
         for (int i = 0; i < n; i++) if (src_matches(tmp[i].data.ptr, mi, "ps", 0)) { k += snprintf(ready_seen + k, sizeof ready_seen - k, "%sp0,", LN[mi]); break; }
         for (int key = 1; key <= NKEY; key++) for (int i = 0; i < n; i++) if (src_matches(tmp[i].data.ptr, mi, "fd", key)) { k += snprintf(ready_seen + k, sizeof ready_seen - k, "%sf%d,", LN[mi], key); break; }
         for (int key = 1; key <= NKEY; key++) for (int i = 0; i < n; i++) if (src_matches(tmp[i].data.ptr, mi, "tmr", key)) { k += snprintf(ready_seen + k, sizeof ready_seen - k, "%st%d,", LN[mi], key); break; }
+        static const struct { const char *kind; char c; } XK[] = {{"sgn", 'g'}, {"path", 'h'}, {"pid", 'i'}, {"task", 'j'}};
+        for (int x = 0; x < 4; x++) for (int key = 1; key <= NKEY; key++) for (int i = 0; i < n; i++)
+            if (src_matches(tmp[i].data.ptr, mi, XK[x].kind, key)) { k += snprintf(ready_seen + k, sizeof ready_seen - k, "%s%c%d,", LN[mi], XK[x].c, key); break; }
         for (int i = 0; i < n; i++) if (src_matches(tmp[i].data.ptr, mi, "tb", 0)) { k += snprintf(ready_seen + k, sizeof ready_seen - k, "%sb0,", LN[mi]); break; }
         for (int i = 0; i < n; i++) if (src_matches(tmp[i].data.ptr, mi, "bt", 0)) { k += snprintf(ready_seen + k, sizeof ready_seen - k, "%so0,", LN[mi]); break; }
     }
@@ -274,6 +402,16 @@ static void project(char *buf, size_t n, const char *topdesc) {
     }
     k += snprintf(buf + k, n - k, "|pay:");
     for (int p = 1; p <= maxpay; p++) k += snprintf(buf + k, n - k, "%c", !PAY[p].live ? 'u' : vp_watch_freed[PAY[p].watch] ? (vp_watch_freed[PAY[p].watch] > 1 ? '2' : 'f') : 'l');
+    k += snprintf(buf + k, n - k, "|tk:");
+    {
+        int any = 0;
+        for (int i = 0; i < nmods; i++) for (int key = 1; key < NTK; key++) {
+            int r = task_mode ? task_running(i, key) : 0;
+            if (r == 1) k += snprintf(buf + k, n - k, "%s%s%d", any++ ? "," : "", LN[i], key);
+            else if (r > 1) k += snprintf(buf + k, n - k, "%s%s%dx%d", any++ ? "," : "", LN[i], key, r);      /* the function runs several times at once */
+        }
+        if (!any) k += snprintf(buf + k, n - k, "_");
+    }
     snprintf(buf + k, n - k, "|d%d|%s", depth, topdesc);
 }
 
@@ -299,9 +437,31 @@ static const char *canon_sig(char *out, size_t n, const char *what) {
     return out;
 }
 
+/* tasks are asynchronous: wait (bounded) until the threads the spec expects are inside the user's function; threads the spec
+   expected the library to wait for during this step and that it did not wait for are let go now - whatever they touch must
+   still be valid */
+static void task_settle(const char *exp) {
+    if (task_release_on_join) {
+        task_release_on_join = 0;
+        task_joined += task_release_all();
+    }
+    for (; task_joined > 0; task_joined--) if (wait_notified() != 0) { fail("core-task-no-notification", "a task whose function returned did not notify the loop within 5 s"); return; }
+    const char *tk = strstr(exp, "|tk:");
+    if (!tk) return;
+    tk += 4;
+    while (*tk && *tk != '|' && *tk != '_') {
+        char nm[2] = {*tk, 0};
+        int mi = -1; for (int i = 0; i < nmods; i++) if (!strcmp(LN[i], nm)) mi = i;
+        int key = tk[1] - '0';
+        for (int spin = 0; mi >= 0 && key > 0 && key < NTK && task_running(mi, key) < 1 && spin < 5000; spin++) usleep(1000);
+        tk += 2;
+        if (*tk == ',') tk++;
+    }
+}
 static void compare(const char *topdesc, int check_ret) {
     char proj[1024], sig[160];
     gw_state *st = &gw_states[cur_state];
+    if (task_mode) task_settle(st->proj);
     project(proj, sizeof proj, topdesc);
     /* inside a DENY_CTX callback the context is hidden from the driver: compare the rest */
     const char *exp = st->proj;
@@ -320,6 +480,27 @@ static void compare(const char *topdesc, int check_ret) {
     return;
 bad:
     fail(canon_sig(sig, sizeof sig, "state"), "expected %s ; got %s   [ctx:state,len,running,quit|mod:state:mailbox..|pay|depth|top frame]", st->proj, proj);
+}
+
+/* the step from spec state a to spec state b makes the library wait for the running task threads when tasks leave `trun`
+   other than through TaskFinish */
+static int tk_count(const char *proj) { const char *t = strstr(proj, "|tk:"); if (!t || t[4] == '_') return 0; int n = 1; for (t += 4; *t && *t != '|'; t++) if (*t == ',') n++; return n; }
+static int tk_has(const char *proj, const char *item) {
+    const char *t = strstr(proj, "|tk:"); if (!t) return 0;
+    const char *e = strchr(t + 1, '|'); size_t L = strlen(item);
+    for (t += 4; t && t < e; ) { if (!strncmp(t, item, L) && (t[L] == ',' || t[L] == '|')) return 1; t = memchr(t, ',', (size_t)(e - t)); if (t) t++; }
+    return 0;
+}
+static void arm_joins(int a, int b, const char *act) {
+    if (!task_mode || !strcmp(act, "TaskFinish")) return;
+    const char *pa = gw_states[a].proj, *pb = gw_states[b].proj;
+    const char *t = strstr(pa, "|tk:"); if (!t || t[4] == '_') return;
+    char item[8];
+    for (t += 4; *t && *t != '|'; ) {
+        size_t L = 0; while (t[L] && t[L] != ',' && t[L] != '|' && L < 7) { item[L] = t[L]; L++; } item[L] = 0;
+        if (!tk_has(pb, item)) { task_release_on_join = 1; return; }
+        t += L; if (*t == ',') t++;
+    }
 }
 
 /* ---- callbacks ---- */
@@ -355,6 +536,18 @@ static int evdesc_cb(void *up, void *data) {
         (void)key;
     } else if (evt->type == M_SRC_TYPE_TMR && evt->tmr_evt) {
         snprintf(evdesc + k, sizeof evdesc - k, "%s0/tmr//0/%s", k ? ";" : "", evt->userdata ? (const char *)evt->userdata : "");
+    } else if (evt->type == M_SRC_TYPE_SGN && evt->sgn_evt) {
+        int key = 0; for (int q = 1; q <= NKEY; q++) if (SIGS[q] == (int)evt->sgn_evt->signo) key = q;
+        snprintf(evdesc + k, sizeof evdesc - k, "%s0/sgn%s//0/%s", k ? ";" : "", key ? "" : "?", evt->userdata ? (const char *)evt->userdata : "");
+    } else if (evt->type == M_SRC_TYPE_PATH && evt->path_evt) {
+        int key = 0; for (int q = 1; q <= NKEY; q++) if (evt->path_evt->path && !strcmp(PATHS[q], evt->path_evt->path)) key = q;
+        snprintf(evdesc + k, sizeof evdesc - k, "%s0/path%s//0/%s", k ? ";" : "", key && (evt->path_evt->events & IN_CREATE) ? "" : "?", evt->userdata ? (const char *)evt->userdata : "");
+    } else if (evt->type == M_SRC_TYPE_PID && evt->pid_evt) {
+        int key = 0; for (int q = 1; q <= NKEY; q++) if (kid[q] == evt->pid_evt->pid) key = q;
+        snprintf(evdesc + k, sizeof evdesc - k, "%s0/pid%s//0/%s", k ? ";" : "", key ? "" : "?", evt->userdata ? (const char *)evt->userdata : "");
+    } else if (evt->type == M_SRC_TYPE_TASK && evt->task_evt) {
+        int key = (int)evt->task_evt->tid;
+        snprintf(evdesc + k, sizeof evdesc - k, "%s0/task%s//0/%s", k ? ";" : "", evt->task_evt->retval == 40 + key ? "" : "?", evt->userdata ? (const char *)evt->userdata : "");
     } else snprintf(evdesc + k, sizeof evdesc - k, "%stype%d", k ? ";" : "", evt->type);
     return 0;
 }
@@ -382,7 +575,7 @@ static bool enter_cb(m_mod_t *self, const char *kind, const m_queue_t *evts) {
     while (!failed) {
         if (cursor >= PN) { fail("core-program-ended-in-callback", "program ended inside a callback"); break; }
         gw_edge *e = &gw_edges[P[cursor]];
-        if (!strcmp(e->act, "CbReturn")) { cursor++; cur_state = e->dst; v = e->args[0] != 0; errno = errno_to_leave; break; }
+        if (!strcmp(e->act, "CbReturn")) { cursor++; arm_joins(e->src, e->dst, e->act); cur_state = e->dst; v = e->args[0] != 0; errno = errno_to_leave; break; }
         exec_action(e);
     }
     depth--;
@@ -479,11 +672,12 @@ static m_mod_flags mflags_i(int i, int which) {
 }
 static m_mod_flags mflags(int i) { return mflags_i(i, 1); }
 
-static int is_env_action(const char *a) { return !strcmp(a, "RefMod") || !strcmp(a, "DropRef") || !strcmp(a, "RetainEvt") || !strcmp(a, "ReleaseEvt") || !strcmp(a, "FdHup") || !strcmp(a, "TbTick") || !strcmp(a, "BtFire") || !strcmp(a, "TickFire") || !strcmp(a, "FdReady") || !strcmp(a, "FdDrain") || !strcmp(a, "FdReopen") || !strcmp(a, "TmrFire") || !strcmp(a, "SetErrno"); }
+static int is_env_action(const char *a) { return !strcmp(a, "RefMod") || !strcmp(a, "DropRef") || !strcmp(a, "RetainEvt") || !strcmp(a, "ReleaseEvt") || !strcmp(a, "FdHup") || !strcmp(a, "TbTick") || !strcmp(a, "BtFire") || !strcmp(a, "TickFire") || !strcmp(a, "FdReady") || !strcmp(a, "FdDrain") || !strcmp(a, "FdReopen") || !strcmp(a, "TmrFire") || !strcmp(a, "SetErrno") || !strcmp(a, "SgnRaise") || !strcmp(a, "PathTouch") || !strcmp(a, "PidExit") || !strcmp(a, "TaskFinish"); }
 static void exec_action(gw_edge *e) {
     const char *a = e->act;
     char tb[64];
     cursor++;
+    arm_joins(e->src, e->dst, a);
     cur_state = e->dst;
     int my_depth = depth;
     long r = 0;
@@ -580,9 +774,14 @@ static void exec_action(gw_edge *e) {
         const void *ud = kud[key];
         if (!strcmp(kd, "fd")) r = reg ? m_mod_src_register_fd(H[m], ufd_r[key], fl, ud) : m_mod_src_deregister_fd(H[m], ufd_r[key]);
         else if (!strcmp(kd, "tmr")) { m_src_tmr_t t = {CLOCK_MONOTONIC, TMR_NS[key]}; r = reg ? m_mod_src_register_tmr(H[m], &t, fl, ud) : m_mod_src_deregister_tmr(H[m], &t); }
-        else if (!strcmp(kd, "sgn")) { m_src_sgn_t g = {key == 1 ? SIGUSR1 : SIGUSR2}; r = reg ? m_mod_src_register_sgn(H[m], &g, fl, ud) : m_mod_src_deregister_sgn(H[m], &g); }
-        else if (!strcmp(kd, "path")) { m_src_path_t pt = {key == 1 ? "/tmp" : "/", 0x2 /* IN_MODIFY */}; r = reg ? m_mod_src_register_path(H[m], &pt, fl, ud) : m_mod_src_deregister_path(H[m], &pt); }
-        else if (!strcmp(kd, "pid")) { m_src_pid_t pd = {key == 1 ? getpid() : getppid(), 0}; r = reg ? m_mod_src_register_pid(H[m], &pd, fl, ud) : m_mod_src_deregister_pid(H[m], &pd); }
+        else if (!strcmp(kd, "sgn")) { m_src_sgn_t g = {(unsigned)SIGS[key]}; r = reg ? m_mod_src_register_sgn(H[m], &g, fl, ud) : m_mod_src_deregister_sgn(H[m], &g); }
+        else if (!strcmp(kd, "path")) { m_src_path_t pt = {PATHS[key], IN_CREATE}; r = reg ? m_mod_src_register_path(H[m], &pt, fl, ud) : m_mod_src_deregister_path(H[m], &pt); }
+        else if (!strcmp(kd, "pid")) { m_src_pid_t pd = {kid_of(key), 0}; r = reg ? m_mod_src_register_pid(H[m], &pd, fl, ud) : m_mod_src_deregister_pid(H[m], &pd); }
+        else if (!strcmp(kd, "task")) {
+            task_slot *t = &TK[m][key];
+            m_src_task_t tk = {key, task_fn};
+            r = reg ? m_mod_src_register_task(H[m], &tk, fl, t) : m_mod_src_deregister_task(H[m], &tk);
+        }
         else if (!strcmp(kd, "thr")) { m_src_thresh_t th = {key == 1 ? 1000000000ULL : 2ULL, key == 1 ? 2.0 : 1000000000.0}; r = reg ? m_mod_src_register_thresh(H[m], &th, fl, ud) : m_mod_src_deregister_thresh(H[m], &th); }
         else { fail("core-unknown-kind", "driver does not know source kind %s", kd); return; }
         keep = 1;
@@ -591,6 +790,25 @@ static void exec_action(gw_edge *e) {
     else if (!strcmp(a, "FdHup")) { char x = 'x'; __real_write(ufd_w[e->args[0]], &x, 1); __real_close(ufd_w[e->args[0]]); ufd_w[e->args[0]] = -1; r = 0; }
     else if (!strcmp(a, "FdDrain")) { char buf[64]; while (read(ufd_r[e->args[0]], buf, sizeof buf) > 0); r = 0; }
     else if (!strcmp(a, "FdReopen")) { if (ufd_w[e->args[0]] >= 0) __real_close(ufd_w[e->args[0]]); ufd_open((int)e->args[0]); r = 0; }
+    else if (!strcmp(a, "SgnRaise")) { r = kill(getpid(), SIGS[e->args[0]]); }
+    else if (!strcmp(a, "PathTouch")) {
+        /* a file "x" is created in the watched directory: every watch on it that asked for IN_CREATE gets a record */
+        struct { struct inotify_event ev; char name[16]; } rec;
+        memset(&rec, 0, sizeof rec);
+        rec.ev.wd = 1; rec.ev.mask = IN_CREATE; rec.ev.len = sizeof rec.name; rec.name[0] = 'x';
+        r = 0;
+        for (int fd = 0; fd < MAXFD; fd++)
+            if (vino[fd].w > 0 && !strcmp(vino[fd].path, PATHS[e->args[0]]) && (vino[fd].mask & IN_CREATE)) __real_write(vino[fd].w, &rec, sizeof rec);
+    }
+    else if (!strcmp(a, "PidExit")) { kid_exit((int)e->args[0]); r = 0; }
+    else if (!strcmp(a, "TaskFinish")) {
+        int key = (int)e->args[1];
+        if (task_running(m, key) < 1) { fail("core-TaskFinish-not-running", "the spec's task %s%d is running but no thread is inside its function", LN[m], key); return; }
+        TK[m][key].released++;
+        sem_post(&TK[m][key].gate);
+        if (wait_notified() != 0) { fail("core-task-no-notification", "task %s%d: its function returned but the loop was not notified within 5 s", LN[m], key); return; }
+        r = 0;
+    }
     else if (!strcmp(a, "TmrFire")) {
         /* find the (virtual) timer descriptor of that source and make it expire */
         int key = (int)e->args[1];
@@ -685,7 +903,7 @@ static int loop_poll(int epfd, struct epoll_event *events, int maxevents) {
         if (!strcmp(e->act, "CbReturn")) { fail("core-cbreturn-at-top", "spec returns from a callback the library never entered"); return 0; }
         if (!strcmp(e->act, "Dispatch")) {
             /* looping, no stop pending: this dispatch delivers a batch */
-            cursor++; cur_state = e->dst;
+            cursor++; arm_joins(e->src, e->dst, e->act); cur_state = e->dst;
             parse_batch(e->sargs[0]);
             loop_expect_ready = strchr(gw_states[e->src].obs, ';');
             return 1;
@@ -700,7 +918,7 @@ static int loop_poll(int epfd, struct epoll_event *events, int maxevents) {
 }
 /* a Dispatch step taken at the top level while the context is idle, in loop mode: the whole loop run */
 static long loop_call(gw_edge *start) {
-    cursor++; cur_state = start->dst;            /* loop_start(): its callbacks (eval / start) consume the following steps */
+    cursor++; arm_joins(start->src, start->dst, start->act); cur_state = start->dst;            /* loop_start(): its callbacks (eval / start) consume the following steps */
     in_loop = 1;
     batch_armed = 0;
     long r = m_ctx_loop();
@@ -745,19 +963,23 @@ static void do_setup(void) {
 }
 
 static int threaded;
-static void on_alarm(int sig) { failed = 0; fail("core-hang", "program did not finish within 20 s (blocked or looping)"); }
+static void on_alarm(int sig) { failed = 0; fail("core-hang", "program did not finish within its time limit (blocked or looping)"); }
 
 static int gw_run(const int *prog, int n) {
     P = prog; PN = n; cursor = 0; depth = 0; failed = 0; last_ret = 0; double_close = 0;
-    long base = vp_outstanding;
+    long base = vp_outstanding + __atomic_load_n(&vp_foreign_outstanding, __ATOMIC_SEQ_CST);
     memset(H, 0, sizeof H); memset(PAY, 0, sizeof PAY); memset(hcnt, 0, sizeof hcnt); nheld = 0;
     vp_watch_reset();
     memset(fd_lib, 0, sizeof fd_lib);
+    for (int fd = 0; fd < MAXFD; fd++) if (vino[fd].w > 0) { __real_close(vino[fd].w); vino[fd].w = 0; }
     errno_to_leave = 0;
+    signals_drain();
+    task_release_on_join = 0; task_joined = 0;
+    if (task_mode) { while (sem_trywait(&task_notified) == 0); for (int i = 0; i < NM; i++) for (int k2 = 0; k2 < NTK; k2++) { TK[i][k2].entered = TK[i][k2].exited = TK[i][k2].released = 0; while (sem_trywait(&TK[i][k2].gate) == 0); } }
     for (int k2 = 1; k2 <= NKEY; k2++) { ufd_r[k2] = ufd_w[k2] = -1; if (k2 <= nkeys) ufd_open(k2); }
     cur_state = gw_edges[prog[0]].src;
     in_program = 1;
-    if (!threaded) alarm(20);
+    if (!threaded) alarm(task_mode ? 8 : 20);
     prog_loopable = loop_mode && program_loopable(prog, n);
     in_loop = 0;
     if (setup_name[0]) {
@@ -781,20 +1003,23 @@ static int gw_run(const int *prog, int n) {
         exec_action(e);
     }
     alarm(0);
+    if (task_mode && !failed) task_settle("");
     in_program = 0;
+    kids_reap();
     for (int k2 = 1; k2 <= NKEY; k2++) { if (ufd_r[k2] >= 0) __real_close(ufd_r[k2]); if (ufd_w[k2] >= 0) __real_close(ufd_w[k2]); }
     if (failed) return 1;
     /* programs end in a clean state: context released, no references held: nothing may be left */
     for (int p = 1; p <= NP; p++) if (PAY[p].ptr && !(PAY[p].autofree && vp_watch_freed[PAY[p].watch])) { vp_free(PAY[p].ptr); PAY[p].ptr = NULL; }
     if (is_clean(cur_state)) {
-        if (vp_outstanding != base) { gw_mismatch(prog, n, n - 1, "core-leak", "allocator ledger: %ld blocks outstanding in a clean state (context released, all references dropped)", vp_outstanding - base); vp_outstanding = base; if (gw_forked) gw_resume_exit(); return 1; }
+        long now_out = vp_outstanding + __atomic_load_n(&vp_foreign_outstanding, __ATOMIC_SEQ_CST);
+        if (now_out != base) { gw_mismatch(prog, n, n - 1, "core-leak", "allocator ledger: %ld blocks outstanding in a clean state (context released, all references dropped)", now_out - base); vp_outstanding -= now_out - base; if (gw_forked) gw_resume_exit(); return 1; }
         if (lib_fds_open()) { gw_mismatch(prog, n, n - 1, "core-fd-leak", "%d descriptors opened by the library are still open in a clean state", lib_fds_open()); if (gw_forked) gw_resume_exit(); return 1; }
     } else {
         /* not clean (only when no completion exists): release what we can */
         if (m_ctx_name()) { for (int i = 0; i < nmods; i++) if (H[i] && m_mod_state(H[i]) != M_MOD_ZOMBIE) m_mod_deregister(&H[i]); if (m_ctx_name()) m_ctx_deregister(); }
         for (int i = 0; i < nmods; i++) for (; H[i] && hcnt[i] > 0; hcnt[i]--) m_mem_unref(H[i]);
         for (int q = 0; q < nheld; q++) m_mem_unref(HELD[q]);
-        vp_outstanding = base;
+        vp_outstanding = base - __atomic_load_n(&vp_foreign_outstanding, __ATOMIC_SEQ_CST);
     }
     if (double_close) { gw_mismatch(prog, n, n - 1, "core-bad-close", "close() failed %d times (double close / not owned)", double_close); if (gw_forked) gw_resume_exit(); return 1; }
     return 0;
@@ -878,6 +1103,13 @@ int main(int argc, char **argv) {
     if (getenv("VP_SETUP")) setup_name = getenv("VP_SETUP");
     if (getenv("VP_NKEYS")) nkeys = atoi(getenv("VP_NKEYS"));
     loop_mode = getenv("VP_LOOPMODE") && atoi(getenv("VP_LOOPMODE"));
+    task_mode = getenv("VP_TASKS") && atoi(getenv("VP_TASKS"));
+    sem_init(&task_notified, 0, 0);
+    for (int i = 0; i < NM; i++) for (int k = 0; k < NTK; k++) { snprintf(TK[i][k].ud, sizeof TK[i][k].ud, "%d", k); TK[i][k].m = i; TK[i][k].key = k; sem_init(&TK[i][k].gate, 0, 0); }
+    { sigset_t ss; sigemptyset(&ss); for (int k = 1; k <= NKEY; k++) sigaddset(&ss, SIGS[k]); sigprocmask(SIG_BLOCK, &ss, NULL); }
+    if (task_mode) { vp_owner = pthread_self(); vp_owner_set = 1; }
+    paths_init();
+    atexit(paths_fini);
     vp_alloc_install();
     signal(SIGALRM, on_alarm);
     measure_order();
